@@ -2,7 +2,7 @@
    Only statements.  Model: Async/Conn.v (StreamWriter::poll_write driven by write_all = writer_write_all /
    write_slices; Request::poll_output), Async/ConnWrites.v (vocabulary: stream_records, chunks, rec_of, io_rel).
    Several writers sharing the lock: Async/Writer.v, proofs Async/WriterProofs.v (second part of this file). *)
-From FV Require Import Base.Bytes Gen.Generated Codec.Header Parser.StreamModel Parser.AbsStream Async.Conn Async.ConnWrites Async.Writer Async.WriterTargets Async.WriterProofs.
+From FV Require Import Base.Bytes Gen.Generated Codec.Header Parser.StreamModel Parser.AbsStream Async.Conn Async.ConnWrites Async.Writer Async.WriterTargets Async.WriterProofs Parser.ReqWire Parser.ReqTargets Async.ConnTotal Async.ConnReads Async.ReadsWTargets Async.FrameTargets Async.FrameProofs.
 
 (* however the transport splits or delays the vectored write of one record (any accept sizes, Pending at
    any call, native vectored write or first-slice fallback), the bytes reaching the client are exactly
@@ -140,4 +140,51 @@ Theorem C10_request_waits :
   (0 < fuel)%nat ->
   output_buffer (rsp r) <> [] -> poll_output_l fuel r (HWriter i) w = (PWake, r, HWriter i, w).
 Proof. exact request_waits_partial. Qed.
+
+(* ---- the WHOLE connection (Async/Conn.v: Token::run with parse_request, handler scripts of all eleven
+   opcodes - reads polled once and abandoned included -, Request::close) ----  on a transport without write
+   faults (any accept sizes, any Pending pattern), for EVERY client (any bytes, segmentation, gating), buffer
+   size and fuel: whatever the outcome (returned, waiting, out of fuel), the transport log is a PREFIX of a
+   byte string that decodes completely into records (framed: ConnWrites.parse_records - version 1, known type,
+   lengths as announced); and it decodes completely (whole) when the task returns, no shutdown was requested
+   and no script abandons a read.  Management replies, stream records and epilogues never interleave, not even
+   in the F6 scenario (the writer waits, it does not write into the unfinished reply) *)
+Theorem C10_connection_framing :
+  forall (norm : bytes -> bytes) (maxc : N) (fuel : nat) (B : N) (scripts : list (list N)) (w0 : world),
+  B < SIZE_LIMIT - 8 ->
+  world_ok w0 ->
+  wlog w0 = [] ->
+  no_fault (wscript w0) ->
+  scripts_ok false scripts ->
+  Forall writes_known scripts ->
+  let
+  '(o, w') := run_loop norm maxc fuel (ReqModel.new_parser B) scripts 0 w0 in
+   framed (wlog w') /\
+   (o = ORet ->
+    stop_at w0 = 0 -> stopped w0 = false -> Forall no_abandoned_read scripts -> whole (wlog w')).
+Proof. exact connection_framing. Qed.
+
+(* non-vacuity: a run that returns with five records, the first a GetValuesResult *)
+Theorem C10_framing_example_whole :
+  let r :=
+    run_loop (fun b : bytes => b) 10 (nb (PeerProofs2.ex2_w 1) + 4) (ReqModel.new_parser 64)
+      PeerProofs2.ex2_scripts 0 (PeerProofs2.ex2_w 1) in
+  fst r = ORet /\
+  whole (wlog (snd r)) /\
+  len (wlog (snd r)) = 80 /\
+  map (fun x : N * N * list N => (fst (fst x), snd (fst x), len (snd x)))
+    (fst (parse_records (length (wlog (snd r))) (wlog (snd r)))) =
+  [(RT_GetValuesResult, 0, 18); (RT_Stdout, 1, 2); (RT_Stdout, 1, 0); (RT_Stderr, 1, 0);
+   (RT_EndRequest, 1, 8)].
+Proof. exact exf_returns_whole. Qed.
+
+(* ... and the F6 run: ODeadlock with the log [1; 10; 0] - three bytes of the reply header: framed, not whole *)
+Theorem C10_framing_example_f6 :
+  let r :=
+    run_loop (fun b : bytes => b) 10 (nb PeerProofs2.ex2p_w + 4) (ReqModel.new_parser 64)
+      (PeerProofs2.ex2p_scripts 11) 0 PeerProofs2.ex2p_w in
+  fst r = ODeadlock /\
+  wlog (snd r) = [1; 10; 0] /\
+  wlog (snd r) = take 3 (Vars.write_response 1 10) /\ framed (wlog (snd r)) /\ ~ whole (wlog (snd r)).
+Proof. exact exf6_framed_not_whole. Qed.
 
